@@ -25,7 +25,8 @@ def _b(x) -> bytes:
 class Exchange:
     """One request / response pair through the real stack, client speaking `vin`, server speaking `vout`."""
 
-    def __init__(self, vin: str, vout: str, *, stream_req=False, stream_resp=False, options=None, transparent=False):
+    def __init__(self, vin: str, vout: str, *, stream_req=False, stream_resp=False, options=None, transparent=False,
+                 tight=""):
         from mitmproxy.proxy.layers import http
         from vf import hpeers, sansio
 
@@ -55,6 +56,10 @@ class Exchange:
         self.hooks: list[str] = []
         self.sid_c = 1 if vin == "h2" else 0
         self.sid_s = None
+        # tight = "client" | "server": that HTTP/2 peer announces a 3-byte stream window and later grants credit in
+        # increments of 1-3 bytes, so the proxy has to park and split body chunks (BufferedH2Connection)
+        self.tight = tight
+        self.grants = [1, 2, 1, 1, 3]
 
     # --- driving ----------------------------------------------------------------------------------
     def _on_hook(self, d, cmd):
@@ -97,8 +102,12 @@ class Exchange:
     def _server_preface(self):
         hp = self.hp
         if self.vout == "h2":
+            import h2.settings
+
             self.sp = hp.h2_peer(False)
             self.sp.initiate_connection()
+            if self.tight == "server":
+                self.sp.update_settings({h2.settings.SettingCodes.INITIAL_WINDOW_SIZE: 3})
             self._feed_bytes("server", self.sp.data_to_send())
         elif self.vout == "h3":
             self.sp = hp.H3Peer(False)
@@ -184,11 +193,41 @@ class Exchange:
     def start(self):
         self._guard(self.d.start)
         if self.vin == "h2":
+            import h2.settings
+
             self.cp.initiate_connection()
+            if self.tight == "client":
+                self.cp.update_settings({h2.settings.SettingCodes.INITIAL_WINDOW_SIZE: 3})
             self._feed_bytes("client", self.cp.data_to_send())
         elif self.vin == "h3":
             self._feed_quic("client", self.cp.take())
         self._settle()
+
+    def grant(self, side: str):
+        """The tight HTTP/2 peer opens its stream windows a few bytes at a time until nothing more arrives."""
+        import h2.exceptions
+
+        peer = self.cp if side == "client" else self.sp
+        evs = self.cev if side == "client" else self.sev
+        if peer is None or not hasattr(peer, "increment_flow_control_window"):
+            return
+        idle, k = 0, 0
+        for _ in range(4000):
+            if self.crashed or idle >= 3:
+                break
+            before = len(evs)
+            for sid in list(peer.streams):
+                try:
+                    peer.increment_flow_control_window(self.grants[k % len(self.grants)], sid)
+                except (h2.exceptions.ProtocolError, KeyError, ValueError):
+                    pass
+            k += 1
+            data = peer.data_to_send()
+            if not data:
+                break
+            self._feed_bytes(side, data)
+            self._settle()
+            idle = 0 if len(evs) > before else idle + 1
 
     # --- sending messages -------------------------------------------------------------------------
     @staticmethod
@@ -506,14 +545,31 @@ def build(direction: str, frm: str, cls: str, body: str, rnd=None):
 def run_case(case: dict) -> list[dict]:
     """Send one message of the given class through the real stack and project what the next hop decoded."""
     direction, frm, to, cls, body, mode = (case[k] for k in ("dir", "from", "to", "cls", "body", "mode"))
+    win = case.get("win", "open")
     vin, vout = (frm, to) if direction == "req" else (to, frm)
     streamed = mode == "streamed"
+    tight = "" if win != "tight" or to != "h2" else ("server" if direction == "req" else "client")
     x = Exchange(vin, vout, stream_req=streamed and direction == "req", stream_resp=streamed and direction == "resp",
-                 transparent=cls == "transparent")
+                 transparent=cls == "transparent", tight=tight)
+    if case.get("var") is not None:
+        g = random.Random(case["var"] ^ 0x5a5a)
+        x.grants = [g.choice([1, 1, 2, 3, 7, 50]) for _ in range(7)]
     I = Interner()
     x.start()
-    rec = {"k": "xlate", "dir": direction, "from": frm, "to": to, "cls": cls, "mode": mode, "body": body,
+    rec = {"k": "xlate", "dir": direction, "from": frm, "to": to, "cls": cls, "mode": mode, "body": body, "win": win,
            "valid": is_valid(frm, cls), "bodydef": cls not in BODY_UNDEFINED}
+    if tight == "server":
+        # an earlier exchange on the same connections: the upstream HTTP/2 connection exists and its small window is
+        # known before the judged request is sent (otherwise the body would leave before the server's SETTINGS arrive)
+        plain = build("req", vin, "transparent" if cls == "transparent" else "plain", "none")
+        x.send("client", vin, x.sid_c, plain["head"], [], [], h1_framing="none", h1_start=plain["h1_start"])
+        if x.server is None or x.sp is None or x.view("server", request=True)["n"] < 1:
+            return [dict(rec, k="setup_failed"), {"k": "end"}]
+        x.send("server", "h2", 1, [(b":status", b"200"), (b"content-length", b"0")], [], [])
+        if x.view("client", request=False)["n"] < 1 or x.crashed:
+            return [dict(rec, k="setup_failed"), {"k": "end"}]
+        x.to_client, x.cev, x.to_server, x.sev = b"", [], b"", []
+        x.sid_c = {"h1": None, "h2": 3, "h3": 4}[vin]
     spec = build(direction, frm, cls, body, random.Random(case["var"]) if case.get("var") is not None else None)
     if direction == "req":
         side_from, side_to = "client", "server"
@@ -533,6 +589,8 @@ def run_case(case: dict) -> list[dict]:
     if frm == "h1" and spec["h1_framing"] == "eof" and x.server is not None:
         x._guard(x.d.peer_close, x.server)  # read-until-close body: the server closes
         x._settle()
+    if tight:
+        x.grant(side_to)
     if frm == "h1":
         start = tuple(spec["h1_start"].split(b" ", 2)) if direction == "resp" else tuple(spec["h1_start"].rsplit(b" ", 1)[0].split(b" ", 1)) + (b"HTTP/1.1",)
         rec["sent"] = project(I, start=start, fields=spec["head"], body=b"".join(spec["chunks"]), trailers=spec["trailers"], request=direction == "req")
@@ -592,7 +650,10 @@ def all_cases(modes=("buffered", "streamed")):
                         if not applicable(d, frm, cls, body) or not applicable_pair(d, frm, to, cls):
                             continue
                         for mode in modes:
-                            yield {"dir": d, "from": frm, "to": to, "cls": cls, "body": body, "mode": mode}
+                            yield {"dir": d, "from": frm, "to": to, "cls": cls, "body": body, "mode": mode, "win": "open"}
+                            if to == "h2" and body in ("data", "trailers"):
+                                # history: the HTTP/2 next hop has a tiny stream window and opens it in small steps
+                                yield {"dir": d, "from": frm, "to": to, "cls": cls, "body": body, "mode": mode, "win": "tight"}
 
 
 def _tla_msg(m: dict):
@@ -607,7 +668,7 @@ def _view(trace):
         if r.get("k") != "xlate":
             out.append(r)
             continue
-        v = {k: r[k] for k in ("k", "dir", "from", "to", "cls", "mode", "body", "valid", "bodydef", "crashed", "n", "mal", "complete", "own")}
+        v = {k: r[k] for k in ("k", "dir", "from", "to", "cls", "mode", "body", "win", "valid", "bodydef", "crashed", "n", "mal", "complete", "own")}
         v["stray"] = r["extra"] > 0
         if r["crashed"]:  # how far the message got before the exception is not predicted
             v["n"], v["complete"], v["stray"], v["mal"] = None, None, None, None
@@ -624,7 +685,7 @@ class Check(core.PropertyCheck):
     MON = "Mon_HttpXlate"
     REQUIRED_WITNESSES = ("h1_h1", "h1_h2", "h2_h1", "h2_h2", "h2_h3", "h3_h1", "h3_h2", "h3_h3", "request_forwarded",
                           "response_forwarded", "invalid_rejected", "cookies_to_h1", "trailers_carried", "body",
-                          "downgrade_to_h1", "proxy_error_page", "streamed")
+                          "downgrade_to_h1", "proxy_error_page", "streamed", "body_through_tight_window")
     REQUIRED_ACTIONS = ("Translate",)
     ASSUMPTIONS = (
         "HPACK/QPACK and frame codecs are hyper-h2's and aioquic's (the peers are independent objects of the same "
@@ -660,7 +721,7 @@ class Check(core.PropertyCheck):
             if not recs or recs[0].get("k") != "xlate":
                 continue
             r = recs[0]
-            case = {k: r[k] for k in ("dir", "from", "to", "cls", "body", "mode")}
+            case = {k: r[k] for k in ("dir", "from", "to", "cls", "body", "mode", "win")}
             n += 1
             yield core.Scenario(case, predicted=_view(recs), source="model")
         ctx.notes["model_cases"] = n
